@@ -24,6 +24,25 @@ structure RegInv (b : Bus) : Prop where
 
 def MonQuiet (b : Bus) : Prop := ∀ x ∈ b.conns, x.monitor = true → QuietIn b.pending x.id
 
+/-- `d` is the id of a connected client -/
+def Connected (b : Bus) (d : ConnId) : Prop := d ∈ b.conns.map (·.id)
+
+/-- every pending reply is between two connected clients -/
+def PendLive (b : Bus) : Prop := ∀ e ∈ b.pending, Connected b e.caller ∧ Connected b e.callee
+
+theorem pendLive_map {b b' : Bus} (g : Conn → Conn) (hc : b'.conns = b.conns.map g) (hg : ∀ x, (g x).id = x.id)
+    (hsub : ∀ e ∈ b'.pending, e ∈ b.pending) (h : PendLive b) : PendLive b' := by
+  have hids : b'.conns.map (·.id) = b.conns.map (·.id) := by
+    rw [hc, List.map_map]; apply List.map_congr_left; intro x _; exact hg x
+  intro e he
+  unfold Connected
+  rw [hids]
+  exact h e (hsub e he)
+
+theorem connected_of_nonMon {b : Bus} {d : ConnId} (h : NonMon b d) : Connected b d := by
+  obtain ⟨x, hx, hid, _⟩ := h
+  exact List.mem_map.mpr ⟨x, hx, hid⟩
+
 /-! ### lists -/
 
 theorem mem_removeLast_of_ne {l : List Bytes} {a n : Bytes} (h : a ∈ l) (hne : a ≠ n) : a ∈ removeLast l n := by
@@ -188,11 +207,14 @@ structure Mid (c : ConnId) (b : Bus) : Prop where
   reg : RegInv b
   quiet : QuietX c b
   svc : ServicesInv b
+  plive : PendLive b
 
 theorem mid_applyQueue {c : ConnId} {t : Tx} (h : Mid c t.bus) (n : Bytes) {os' : List Owner} (sigs : List Sig) (hq : QInv os')
     (hnew : ∀ d, inQueue os' d = true → inQueue (ownersOf t.bus n) d = true ∨ NonMon t.bus d) :
     Mid c (applyQueue t n os' sigs).bus :=
-  ⟨regInv_applyQueue t n os' sigs h.reg hnew, quietX_applyQueue c t n os' sigs h.quiet, svc_applyQueue h.svc n sigs hq⟩
+  ⟨regInv_applyQueue t n os' sigs h.reg hnew, quietX_applyQueue c t n os' sigs h.quiet, svc_applyQueue h.svc n sigs hq,
+   pendLive_map _ (applyQueue_conns t n os' sigs) (fun x => (syncG_fields _ _ _ x).1)
+     (fun e he => by rw [applyQueue_pending'] at he; exact he) h.plive⟩
 
 theorem mid_map {c : ConnId} {b b' : Bus} (g : Conn → Conn) (hc : b'.conns = b.conns.map g) (hs : b'.services = b.services)
     (hp : b'.pending = b.pending)
@@ -200,7 +222,8 @@ theorem mid_map {c : ConnId} {b b' : Bus} (g : Conn → Conn) (hc : b'.conns = b
     (hr : ∀ x ∈ b.conns, x.monitor = true → x.rules = [] → (g x).rules = []) (h : Mid c b) : Mid c b' :=
   ⟨regInv_map g hc hs hg hr h.reg,
    quietX_map c g hc hp (fun x => ⟨(hg x).1, fun hm _ => by rw [(hg x).2.1] at hm; exact hm⟩) h.quiet,
-   servicesInv_of_services_eq hs h.svc⟩
+   servicesInv_of_services_eq hs h.svc,
+   pendLive_map g hc (fun x => (hg x).1) (fun e he => by rw [hp] at he; exact he) h.plive⟩
 
 theorem mid_same {c : ConnId} {b b' : Bus} (hc : b'.conns = b.conns) (hs : b'.services = b.services) (hp : b'.pending = b.pending)
     (h : Mid c b) : Mid c b' :=
@@ -386,7 +409,7 @@ theorem mid_setMon {c : ConnId} {b : Bus} (h : Mid c b) (hno : ∀ s ∈ b.servi
     Mid c (b.updConn c fun y => { y with rules := [], monitor := true }) := by
   have hc : (b.updConn c fun y => { y with rules := [], monitor := true }).conns = b.conns.map (setMonG c) := rfl
   have hid : ∀ y, (setMonG c y).id = y.id := by intro y; unfold setMonG; split <;> rfl
-  refine ⟨⟨?_, ?_, ?_⟩, ?_, servicesInv_of_services_eq rfl h.svc⟩
+  refine ⟨⟨?_, ?_, ?_⟩, ?_, servicesInv_of_services_eq rfl h.svc, pendLive_map (setMonG c) hc hid (fun _ he => he) h.plive⟩
   · intro y' hy' s hs hq
     rw [hc] at hy'
     obtain ⟨y, hy, rfl⟩ := List.mem_map.mp hy'
@@ -549,7 +572,7 @@ theorem pendStep_dispatchMatches (t : Tx) (s a : Option ConnId) (m : Msg) : Pend
 theorem mid_of_pendStep_none {c : ConnId} {s : Option ConnId} {b b' : Bus} (hp : PendStep s none b b') (h : Mid c b) : Mid c b' := by
   have hsub : ∀ e ∈ b'.pending, e ∈ b.pending := fun e he => (hp.2.2 e he).elim id (fun h => by cases h.2)
   refine ⟨regInv_map id (by rw [hp.1, List.map_id]) hp.2.1 (fun _ => ⟨rfl, rfl, rfl⟩) (fun _ _ _ h => h) h.reg, ?_,
-    servicesInv_of_services_eq hp.2.1 h.svc⟩
+    servicesInv_of_services_eq hp.2.1 h.svc, pendLive_map id (by rw [hp.1, List.map_id]) (fun _ => rfl) hsub h.plive⟩
   intro x hx hm hne e he
   rw [hp.1] at hx
   exact h.quiet x hx hm hne e (hsub e he)
@@ -557,7 +580,7 @@ theorem mid_of_pendStep_none {c : ConnId} {s : Option ConnId} {b b' : Bus} (hp :
 theorem mid_sub {c : ConnId} {b b' : Bus} (hc : b'.conns = b.conns) (hs : b'.services = b.services)
     (hsub : ∀ e ∈ b'.pending, e ∈ b.pending) (h : Mid c b) : Mid c b' := by
   refine ⟨regInv_map id (by rw [hc, List.map_id]) hs (fun _ => ⟨rfl, rfl, rfl⟩) (fun _ _ _ h => h) h.reg, ?_,
-    servicesInv_of_services_eq hs h.svc⟩
+    servicesInv_of_services_eq hs h.svc, pendLive_map id (by rw [hc, List.map_id]) (fun _ => rfl) hsub h.plive⟩
   intro x hx hm hne e he
   rw [hc] at hx
   exact h.quiet x hx hm hne e (hsub e he)
@@ -692,13 +715,14 @@ structure Good (b : Bus) : Prop where
   svc : ServicesInv b
   reg : RegInv b
   quiet : MonQuiet b
+  plive : PendLive b
 
 theorem Good.ids {b : Bus} (h : Good b) : (b.conns.map (·.id)).Nodup := by
   have := h.names.ids_nodup
   simpa [Dbus.Proofs.Bus.names, List.map_map, Function.comp_def] using this
 
 theorem Good.mid {b : Bus} (h : Good b) (c : ConnId) : Mid c b :=
-  ⟨h.reg, fun x hx hm _ => h.quiet x hx hm, h.svc⟩
+  ⟨h.reg, fun x hx hm _ => h.quiet x hx hm, h.svc, h.plive⟩
 
 theorem nonMon_of_conn {b : Bus} {c : ConnId} {x : Conn} (hx : b.conn? c = some x) (hm : x.monitor = false) : NonMon b c :=
   ⟨x, List.mem_of_find?_eq_some hx, by simpa using List.find?_some hx, hm⟩
@@ -726,12 +750,12 @@ theorem sweep_cases (c : ConnId) (T : Tx) (hq : QuietX c T.bus) :
     rw [hany] at this; cases this
 
 theorem after_sweep {c : ConnId} {T : Tx} (h : Mid c T.bus) :
-    RegInv (sweepMonitors T).bus ∧ MonQuiet (sweepMonitors T).bus ∧ ServicesInv (sweepMonitors T).bus := by
+    RegInv (sweepMonitors T).bus ∧ MonQuiet (sweepMonitors T).bus ∧ PendLive (sweepMonitors T).bus := by
   rcases sweep_cases c T h.quiet with he | ⟨he, hne⟩
   · rw [he, dropPending_bus]
     have hm : Mid c ({ T.bus with pending := T.bus.pending.filter fun p => !involves c p } : Bus) :=
       mid_sub (b := T.bus) rfl rfl (fun e he => (List.mem_filter.mp he).1) h
-    refine ⟨hm.reg, ?_, hm.svc⟩
+    refine ⟨hm.reg, ?_, hm.plive⟩
     intro x hx hmon
     by_cases hid : x.id = c
     · intro e he
@@ -739,7 +763,7 @@ theorem after_sweep {c : ConnId} {T : Tx} (h : Mid c T.bus) :
       rw [hid]; simpa using this
     · exact hm.quiet x hx hmon hid
   · rw [he]
-    exact ⟨h.reg, fun x hx hm => h.quiet x hx hm (hne x hx hm), h.svc⟩
+    exact ⟨h.reg, fun x hx hm => h.quiet x hx hm (hne x hx hm), h.plive⟩
 
 /-! ### the other ways a step changes the state -/
 
@@ -781,11 +805,25 @@ theorem route_pendStep (t : Tx) (c : ConnId) (m : Msg) :
       have := pendStep_dispatchMatches (capture t (some c) (some a) m) (some c) (some a) m
       rw [(capture_frame _ _ _ _).1] at this; exact this
 
-theorem good_route {b : Bus} (h : Good b) (c : ConnId) (ha : Actor b c) (m : Msg) :
-    RegInv (finish (route { bus := b } c m) c m).bus ∧ MonQuiet (finish (route { bus := b } c m) c m).bus := by
+theorem good_route {b : Bus} (h : Good b) (c : ConnId) (ha : Actor b c) (hcn : NonMon b c) (m : Msg) :
+    RegInv (finish (route { bus := b } c m) c m).bus ∧ MonQuiet (finish (route { bus := b } c m) c m).bus ∧
+    PendLive (finish (route { bus := b } c m) c m).bus := by
   rw [finish_bus]
   obtain ⟨a, hp, hprim⟩ := route_pendStep { bus := b } c m
-  refine ⟨regInv_map id (by rw [hp.1, List.map_id]) hp.2.1 (fun _ => ⟨rfl, rfl, rfl⟩) (fun _ _ _ h => h) h.reg, ?_⟩
+  refine ⟨regInv_map id (by rw [hp.1, List.map_id]) hp.2.1 (fun _ => ⟨rfl, rfl, rfl⟩) (fun _ _ _ h => h) h.reg, ?_, ?_⟩
+  rotate_left
+  · intro e he
+    unfold Connected
+    rw [hp.1]
+    rcases hp.2.2 e he with hold | ⟨hs, hcal⟩
+    · exact h.plive e hold
+    · have h1 : e.caller = c := by simpa using hs.symm
+      refine ⟨by rw [h1]; exact connected_of_nonMon hcn, ?_⟩
+      rcases hprim with rfl | ⟨d, hd⟩
+      · cases hcal
+      · rw [hcal] at hd
+        obtain ⟨s, hs', hq⟩ := primary?_inQueue hd
+        exact connected_of_nonMon (h.reg.live s hs' _ hq)
   intro x hx hm e he
   rw [hp.1] at hx
   rcases hp.2.2 e he with hold | ⟨hs, hcal⟩
@@ -813,12 +851,12 @@ theorem mid_clearRules {c : ConnId} {b : Bus} (h : Mid c b) (d : ConnId) : Mid c
     (fun y _ _ hr => by split <;> first | rfl | exact hr) h
 
 theorem good_disconnect {b : Bus} (h : Good b) (c : ConnId) :
-    RegInv (disconnect b c).bus ∧ MonQuiet (disconnect b c).bus := by
+    RegInv (disconnect b c).bus ∧ MonQuiet (disconnect b c).bus ∧ PendLive (disconnect b c).bus := by
   unfold disconnect
   cases hx : b.conn? c with
-  | none => exact ⟨h.reg, h.quiet⟩
+  | none => exact ⟨h.reg, h.quiet, h.plive⟩
   | some x =>
-    show RegInv (disconnectTx b c x).bus ∧ MonQuiet (disconnectTx b c x).bus
+    show RegInv (disconnectTx b c x).bus ∧ MonQuiet (disconnectTx b c x).bus ∧ PendLive (disconnectTx b c x).bus
     have hxm : x ∈ b.conns := List.mem_of_find?_eq_some hx
     have hxid : x.id = c := by simpa using List.find?_some hx
     unfold disconnectTx
@@ -843,11 +881,23 @@ theorem good_disconnect {b : Bus} (h : Good b) (c : ConnId) :
         exact ⟨y, List.mem_filter.mpr ⟨hy, by rw [hyid]; simpa using hdc⟩, hyid, hym⟩
       · intro y hy hm
         exact h2.reg.clean y (List.mem_filter.mp hy).1 hm
-    refine ⟨⟨hreg.sync, hreg.live, hreg.clean⟩, ?_⟩
-    intro y hy hm e he
-    have hy' := List.mem_filter.mp hy
-    have hne : y.id ≠ c := by simpa using hy'.2
-    exact h2.quiet y hy'.1 hm hne e (List.mem_filter.mp he).1
+    refine ⟨⟨hreg.sync, hreg.live, hreg.clean⟩, ?_, ?_⟩
+    · intro y hy hm e he
+      have hy' := List.mem_filter.mp hy
+      have hne : y.id ≠ c := by simpa using hy'.2
+      exact h2.quiet y hy'.1 hm hne e (List.mem_filter.mp he).1
+    · intro e he
+      obtain ⟨he1, he2⟩ := List.mem_filter.mp he
+      have hinv : e.caller ≠ c ∧ e.callee ≠ c := by
+        unfold involves at he2
+        simp only [Bool.not_eq_true', Bool.or_eq_false_iff, beq_eq_false_iff_ne, ne_eq] at he2
+        exact he2
+      have hl := h2.plive e he1
+      have keep : ∀ d, d ≠ c → Connected T.bus d → Connected (removeConn c T.bus) d := by
+        intro d hd hcn
+        obtain ⟨y, hy, hyid⟩ := List.mem_map.mp hcn
+        exact List.mem_map.mpr ⟨y, List.mem_filter.mpr ⟨hy, by rw [hyid]; simpa using hd⟩, hyid⟩
+      exact ⟨keep _ hinv.1 hl.1, keep _ hinv.2 hl.2⟩
 
 theorem fold_sendError_bus : ∀ (ps : List Pending) (t : Tx),
     (ps.foldl (fun t p => sendError t p.caller (fakeCall p.serial) .noReply) t).bus = t.bus
@@ -858,20 +908,28 @@ theorem fold_sendError_bus : ∀ (ps : List Pending) (t : Tx),
     exact sendFromDriver_bus _ _ _
 
 theorem good_pending_sub {b b' : Bus} (h : Good b) (hc : b'.conns = b.conns) (hs : b'.services = b.services)
-    (hsub : ∀ e ∈ b'.pending, e ∈ b.pending) : RegInv b' ∧ MonQuiet b' := by
-  refine ⟨regInv_map id (by rw [hc, List.map_id]) hs (fun _ => ⟨rfl, rfl, rfl⟩) (fun _ _ _ h => h) h.reg, ?_⟩
+    (hsub : ∀ e ∈ b'.pending, e ∈ b.pending) : RegInv b' ∧ MonQuiet b' ∧ PendLive b' := by
+  refine ⟨regInv_map id (by rw [hc, List.map_id]) hs (fun _ => ⟨rfl, rfl, rfl⟩) (fun _ _ _ h => h) h.reg, ?_,
+    pendLive_map id (by rw [hc, List.map_id]) (fun _ => rfl) hsub h.plive⟩
   intro x hx hm e he
   rw [hc] at hx
   exact h.quiet x hx hm e (hsub e he)
 
 theorem good_connect {b : Bus} (h : Good b) (c uid : Nat) (gids : List Nat) (canFd : Bool) (hn : b.conn? c = none) :
     RegInv { b with conns := b.conns ++ [{ id := c, uid := uid, gids := gids, canFd := canFd }] } ∧
-    MonQuiet { b with conns := b.conns ++ [{ id := c, uid := uid, gids := gids, canFd := canFd }] } := by
+    MonQuiet { b with conns := b.conns ++ [{ id := c, uid := uid, gids := gids, canFd := canFd }] } ∧
+    PendLive { b with conns := b.conns ++ [{ id := c, uid := uid, gids := gids, canFd := canFd }] } := by
   have hfresh : ∀ y ∈ b.conns, y.id ≠ c := by
     intro y hy he
     have := List.find?_eq_none.mp hn y hy
     simp [he] at this
-  refine ⟨⟨?_, ?_, ?_⟩, ?_⟩
+  refine ⟨⟨?_, ?_, ?_⟩, ?_, ?_⟩
+  rotate_right
+  · intro e he
+    have := h.plive e he
+    unfold Connected at this ⊢
+    simp only [List.map_append, List.mem_append]
+    exact ⟨Or.inl this.1, Or.inl this.2⟩
   · intro y hy s hs hq
     simp only [List.mem_append, List.mem_singleton] at hy
     rcases hy with hy | rfl
@@ -895,14 +953,14 @@ theorem good_connect {b : Bus} (h : Good b) (c uid : Nat) (gids : List Nat) (can
 /-! ### every step keeps the invariant -/
 
 theorem good_dispatch (tbl : List IfaceRow) {b : Bus} (h : Good b) (c : ConnId) (m0 : Msg) :
-    RegInv (dispatch tbl b c m0).bus ∧ MonQuiet (dispatch tbl b c m0).bus := by
+    RegInv (dispatch tbl b c m0).bus ∧ MonQuiet (dispatch tbl b c m0).bus ∧ PendLive (dispatch tbl b c m0).bus := by
   unfold dispatch
   cases hx : b.conn? c with
-  | none => exact ⟨h.reg, h.quiet⟩
+  | none => exact ⟨h.reg, h.quiet, h.plive⟩
   | some x =>
     dsimp only
     split
-    · exact ⟨h.reg, h.quiet⟩
+    · exact ⟨h.reg, h.quiet, h.plive⟩
     · cases hm : x.monitor with
       | true => simp only [if_true]; exact good_disconnect h c
       | false =>
@@ -910,16 +968,15 @@ theorem good_dispatch (tbl : List IfaceRow) {b : Bus} (h : Good b) (c : ConnId) 
         have ha := actor_of_conn h.ids hx hm
         have hc := nonMon_of_conn hx hm
         split
-        · exact ⟨h.reg, h.quiet⟩
+        · exact ⟨h.reg, h.quiet, h.plive⟩
         · split
           · have hmid : Mid c (finish (toDriver tbl { bus := b } c ((strip m0).setSender (senderNameOf b c))) c
                 ((strip m0).setSender (senderNameOf b c))).bus := by
               rw [finish_bus]; exact mid_toDriver tbl (t := { bus := b }) (h.mid c) hc ha _
-            have := after_sweep hmid
-            exact ⟨this.1, this.2.1⟩
+            exact after_sweep hmid
           · split
             · exact good_disconnect h c
-            · exact good_route h c ha _
+            · exact good_route h c ha hc _
 
 theorem reloadPolicy_conns (b : Bus) (p : Policy) :
     (reloadPolicy b p).conns = b.conns.map fun x => if x.name.isSome then { x with policy := p.clientRules x.uid x.gids false } else x := rfl
@@ -927,40 +984,41 @@ theorem reloadPolicy_conns (b : Bus) (p : Policy) :
 theorem good_step (tbl : List IfaceRow) {b : Bus} (h : Good b) (ev : Ev) : Good (step tbl b ev).bus := by
   have hn := namesInv_step tbl b ev h.names
   have hs : ServicesInv (step tbl b ev).bus := lv_step services_leaves tbl b ev h.svc
-  suffices hrq : RegInv (step tbl b ev).bus ∧ MonQuiet (step tbl b ev).bus from ⟨hn, hs, hrq.1, hrq.2⟩
+  suffices hrq : RegInv (step tbl b ev).bus ∧ MonQuiet (step tbl b ev).bus ∧ PendLive (step tbl b ev).bus from ⟨hn, hs, hrq.1, hrq.2.1, hrq.2.2⟩
   cases ev with
   | connect c uid gids canFd =>
     simp only [step]
     cases hc : b.conn? c with
-    | some x => simp only [Option.isSome_some, if_true]; exact ⟨h.reg, h.quiet⟩
+    | some x => simp only [Option.isSome_some, if_true]; exact ⟨h.reg, h.quiet, h.plive⟩
     | none => simp only [Option.isSome_none, Bool.false_eq_true, if_false]; exact good_connect h c uid gids canFd hc
   | msg c m => exact good_dispatch tbl h c m
   | invalid c =>
     simp only [step]
     split
-    · exact ⟨h.reg, h.quiet⟩
+    · exact ⟨h.reg, h.quiet, h.plive⟩
     · exact good_disconnect h c
   | close c => exact good_disconnect h c
   | timeout =>
-    show RegInv (expireAll b).bus ∧ MonQuiet (expireAll b).bus
+    show RegInv (expireAll b).bus ∧ MonQuiet (expireAll b).bus ∧ PendLive (expireAll b).bus
     unfold expireAll
     rw [fold_sendError_bus]
     exact good_pending_sub h rfl rfl (fun e he => by cases he)
   | expire due =>
-    show RegInv (expireWhere b _).bus ∧ MonQuiet (expireWhere b _).bus
+    show RegInv (expireWhere b _).bus ∧ MonQuiet (expireWhere b _).bus ∧ PendLive (expireWhere b _).bus
     unfold expireWhere
     rw [fold_sendError_bus]
     exact good_pending_sub h rfl rfl (fun e he => (List.mem_filter.mp he).1)
   | stall c on => exact good_pending_sub h rfl rfl (fun e he => he)
   | reload p =>
-    show RegInv (reloadPolicy b p) ∧ MonQuiet (reloadPolicy b p)
+    show RegInv (reloadPolicy b p) ∧ MonQuiet (reloadPolicy b p) ∧ PendLive (reloadPolicy b p)
     have hg : ∀ x : Conn, ((if x.name.isSome then { x with policy := p.clientRules x.uid x.gids false } else x : Conn).id = x.id ∧
         (if x.name.isSome then { x with policy := p.clientRules x.uid x.gids false } else x : Conn).monitor = x.monitor ∧
         (if x.name.isSome then { x with policy := p.clientRules x.uid x.gids false } else x : Conn).owned = x.owned ∧
         (if x.name.isSome then { x with policy := p.clientRules x.uid x.gids false } else x : Conn).rules = x.rules) := by
       intro x; split <;> exact ⟨rfl, rfl, rfl, rfl⟩
     refine ⟨regInv_map _ (reloadPolicy_conns b p) rfl (fun x => ⟨(hg x).1, (hg x).2.1, (hg x).2.2.1⟩)
-      (fun x _ _ hr => by rw [(hg x).2.2.2]; exact hr) h.reg, ?_⟩
+      (fun x _ _ hr => by rw [(hg x).2.2.2]; exact hr) h.reg, ?_,
+      pendLive_map _ (reloadPolicy_conns b p) (fun x => (hg x).1) (fun _ he => he) h.plive⟩
     intro x' hx' hm
     rw [reloadPolicy_conns] at hx'
     obtain ⟨x, hx, rfl⟩ := List.mem_map.mp hx'
@@ -973,6 +1031,7 @@ theorem good_init (l : Limits) (p : Policy) : Good { limits := l, policy := p } 
   svc := ⟨List.nodup_nil, by intro s hs; cases hs⟩
   reg := ⟨fun x hx => (by cases hx), fun s hs => (by cases hs), fun x hx => (by cases hx)⟩
   quiet := fun x hx => by cases hx
+  plive := fun e he => by cases he
 
 /-- **every reachable state is good** (from any good state, hence from the empty bus) -/
 theorem good_run (tbl : List IfaceRow) {b : Bus} (h : Good b) (evs : List Ev) : Good (run tbl b evs).1 :=
